@@ -33,7 +33,8 @@ ASSUMPTIONS = ['html.parser tokenisation; the neutral text for the structure com
 
 ALPHABET = ['{', '}', '#', '/', '<', '>', '"', '&', ':', ' ', '\n', 'x']
 PATHS = [('/', 'GET'), ('/x/y', 'GET'), ('/clastic_assets/nope', 'GET'), ('/<b>{x}', 'GET'), ('/', 'POST'), ('/x/y', 'POST'),
-         ('/clastic_assets/../x', 'GET'), ('/clastic_assets//etc/passwd', 'GET'), ('/clastic_assets/a/../../b', 'GET')]
+         ('/clastic_assets/../x', 'GET'), ('/clastic_assets//etc/passwd', 'GET'), ('/clastic_assets/a/../../b', 'GET'),
+         ('/', 'PROPFIND'), ('/x/y', 'purge'), ('/', 'get'), ('/', 'HEAD'), ('/x', 'OPTIONS')]
 
 
 def deadline_passed():
@@ -131,7 +132,9 @@ def texts(tier):
 def file_lists():
     big = ['/proj/module_%03d.py' % i for i in range(200)]
     markup = ['/proj/<b>bold</b>.py', '/proj/a&b "q".py', '/proj/{tb_str}{#x}.py', os.path.join(os.path.dirname(os.__file__), '<i>stdlib</i>.py')]
-    return [('none', None), ('empty', []), ('long', big), ('markup', markup), ('plain', ['/proj/app.py', '/proj/util.py'])]
+    relative = ['example.py', 'conf/<site>.yaml', '', './x.py', '../up.py']
+    return [('none', None), ('empty', []), ('long', big), ('markup', markup), ('plain', ['/proj/app.py', '/proj/util.py']),
+            ('relative', relative)]
 
 
 class Skel(html.parser.HTMLParser):
@@ -242,6 +245,8 @@ def check_text(acc, flaw, family, text, flname, files, neutral_cache):
         if res.code != 200:
             bad('status-%s' % res.code, '%s %s answered %s' % (method, path, res.status), ' body=%r' % (res.body or b'')[:200])
             return
+        if method == 'HEAD':
+            continue
         ct = (res.header('Content-Type') or '')
         if not ct.startswith('text/html'):
             bad('content-type', 'Content-Type %r' % ct)
@@ -279,7 +284,7 @@ def check_text(acc, flaw, family, text, flname, files, neutral_cache):
         if files:
             listed = ''.join(page.li)
             for fn in files:
-                if fn not in listed:
+                if fn and fn not in listed:
                     bad('file-missing', 'monitored file %r is not listed' % fn)
                     return
         if std:
